@@ -67,6 +67,12 @@ def obligations_plumbing(ctx, h):
         ok = len(rets) >= 1
         why = ''
         pcrel_m = m in ('c.j', 'c.jal', 'c.beqz', 'c.bnez')
+        for pi, p in enumerate(paths):
+            pv = p.notes.get('pre_violations')
+            if pv:
+                ctx.add(Obligation('asm.parse_item[%s]/callee-preconditions-hold#%d' % (m, pi), list(p.pc), z3.BoolVal(False), 'INT', func='asm.parse_item',
+                                   kind='pre', cover=False, meta={'replay': ('encoder_text', {'m': m}), 'key': 'parse:%s:callee-pre' % m,
+                                                                  'what': 'parse_item(%s ...): %s' % (m, pv[0])}))
         for pi, p in enumerate(rets):
             item, args, line = p.value
             if args is None or len(args) != n or item.fields.get('name') != m:
@@ -130,6 +136,14 @@ def obligations_offset_syntax(ctx, h):
             continue
         ok = True
         why = ''
+        for shape in ('paren', 'plain'):
+            for pi, p in enumerate(results[shape]):
+                pv = p.notes.get('pre_violations')
+                if pv:
+                    ctx.add(Obligation('asm.parse_item[%s]/%s/callee-preconditions-hold#%d' % (m, shape, pi), list(p.pc), z3.BoolVal(False), 'INT',
+                                       func='asm.parse_item', kind='pre', cover=False,
+                                       meta={'replay': ('encoder_text', {'m': m}), 'key': 'parse:%s:callee-pre' % m,
+                                             'what': 'parse_item(%s, %s form): %s' % (m, 'imm(reg)' if shape == 'paren' else 'reg, imm', pv[0])}))
         rp, rl = [p for p in results['paren'] if p.kind == 'return'], [p for p in results['plain'] if p.kind == 'return']
         if len(rp) != 1 or len(rl) != 1 or len(results['paren']) != 1 or len(results['plain']) != 1:
             ok, why = False, 'the two token shapes do not each parse on a single path'
